@@ -39,7 +39,7 @@ ORCH = 'chainables.orchestrate'
 
 
 def run(ctx: Ctx):
-  for r in (r1, r2, r3, r4, r6, r7):
+  for r in (r1, r2, r3, r4, r6, r7, r8):
     ctx.guard(r)
   from mlmverif.props import c09
   ctx.include('R-C03-5', 'the sharded strategies (thread sub-shards, make(shard='
@@ -219,8 +219,14 @@ def r3(ctx: Ctx):
   loop_ok = False
   rsv = '_'
   for l in walk_no_nested(mk.node):
+    tv_ = None
     if isinstance(l, ast.For) and unparse(l.iter) == tsv:
-      a_ = pat.search(l, f'$r = TransformRunner.from_transform({unparse(l.target)}, ___)', nested=True)
+      tv_ = unparse(l.target)
+    elif isinstance(l, ast.For) and unparse(l.iter) == f'enumerate({tsv})' and isinstance(
+        l.target, ast.Tuple) and len(l.target.elts) == 2:
+      tv_ = unparse(l.target.elts[1])
+    if tv_ is not None:
+      a_ = pat.search(l, f'$r = TransformRunner.from_transform({tv_}, ___)', nested=True)
       if a_:
         b2 = pat.search(l, f'$rs.append({a_[0][1]["r"]})', nested=True)
         if b2:
@@ -405,10 +411,64 @@ def r7(ctx: Ctx, rule='R-C03-7'):
   ctx.floor(rule, 2, n)
 
 
+def r8(ctx: Ctx):
+  rule = 'R-C03-8'
+  ctx.rule(rule, '"as a chain of named stages ... over any number of shards":'
+           ' from_transform rejects a shard configuration for a stage without a'
+           ' (recoverable) data source, so TreeTransform.make — which builds one'
+           ' runner per flattened stage — must pass the shard configuration'
+           ' only to stages that own a data source; passed unconditionally to'
+           ' every stage a chained pipeline cannot be sharded at all')
+  repo = ctx.repo
+  ft = repo.func(TR, 'TransformRunner.from_transform')
+  rejects = any(isinstance(x, ast.Raise) for x in ast.walk(ft.node)) and 'input_state' in ft.params()
+  if not rejects:
+    raise AnalysisError(f'{rule}: from_transform no longer takes/rejects input_state')
+  mk = repo.func(TR, 'TreeTransform.make')
+  sp = 'shard' if 'shard' in mk.params() else None
+  if sp is None:
+    raise AnalysisError(f'{rule}: TreeTransform.make has no shard parameter')
+  calls = [c for c in ast.walk(mk.node) if isinstance(c, ast.Call) and unparse(c.func).endswith('from_transform')]
+  if not calls:
+    raise AnalysisError(f'{rule}: make() does not call from_transform')
+  n = 0
+  from mlmverif.core import parent_map
+  pm = parent_map(mk.node)
+  for c in calls:
+    n += 1
+    v = kwarg(c, 'input_state')
+    in_loop = False
+    q = c
+    while q is not mk.node and q is not None:
+      q = pm.get(q)
+      if isinstance(q, (ast.For, ast.ListComp, ast.GeneratorExp)):
+        in_loop = True
+    cond = v is not None and (isinstance(v, ast.IfExp) or (isinstance(v, ast.Name) and v.id != sp))
+    if v is None or not in_loop or cond:
+      if isinstance(v, ast.Name) and v.id != sp:
+        # a local: must be derived conditionally from the shard parameter
+        defs = [x for x in ast.walk(mk.node) if isinstance(x, ast.Assign) and any(
+            isinstance(t, ast.Name) and t.id == v.id for t in x.targets)]
+        if not any(isinstance(d.value, ast.IfExp) or pm.get(d).__class__ is ast.If for d in defs):
+          cond = False
+      if v is None or not in_loop or cond:
+        ctx.ok(rule, mk, f'shard configuration passed selectively: input_state={unparse(v) if v is not None else None}', c)
+        continue
+    ctx.fail(rule, mk, 'TreeTransform.make: input_state=<shard> only for the stage that owns the data source',
+             f'make() passes `input_state={unparse(v)}` to from_transform for EVERY'
+             ' flattened stage; the stages after the first have no data source'
+             ' and from_transform raises TypeError for them: a chain of named'
+             ' stages cannot be run over shards although the fused pipeline can',
+             node=c)
+  ctx.floor(rule, 1, n)
+
+
 from mlmverif.selfcheck import B, OK  # noqa: E402
 
 _T = 'chainables/transform.py'
 VARIANTS = [
+    B('revert-shard-only-source-stage', _T,
+      'input_state=shard if has_source else None', 'input_state=shard', 'R-C03-8'),
     B('revert-get-result-foreign-keys', _T,
       '      if key.metrics not in self.agg_fns:\n        continue\n      outputs = self.agg_fns[key.metrics].get_result(fn_state)',
       '      outputs = self.agg_fns[key.metrics].get_result(fn_state)', 'R-C03-7'),
